@@ -715,7 +715,11 @@ static inline uint64_t alias_secure(const double p)
         ur = UINT64_MAX;
     }
     else {
-        ur = (uint64_t)(p * (double)UINT64_MAX);
+        /* Scale by 2^63 and shift. Converting a double >= 2^63 straight to
+         * uint64_t raises a spurious invalid-operation exception with some
+         * compilers (clang), fatal where that exception is unmasked (inside
+         * processes and trials). */
+        ur = ((uint64_t)(p * 0x1p63)) << 1;
     }
 
     return ur;
